@@ -772,7 +772,10 @@ class EventGenerator:
         for key, val in value.attributes.items():
             yield XmlWriterEvent.ATTR, key, val
 
-        yield XmlWriterEvent.DATA, value.text
+        if value.qname or value.text is not None:
+            # A nameless element only groups its children, it has no
+            # content of its own to close the parent start tag with
+            yield XmlWriterEvent.DATA, value.text
 
         for child in value.children:
             yield from self.convert_any_type(child, var, namespace)
